@@ -478,7 +478,7 @@ def main(argv):
         if f.endswith(".py"):
             tot = executable_lines(os.path.join(env.REPO, f))
             cov = lines.get(f, set()) & tot if tot else lines.get(f, set())
-            anchors[f] = {"covered": len(cov), "executable": len(tot)}
+            anchors[f] = {"covered": len(cov), "executable": len(tot), "never_executed_lines": sorted(tot - cov)[:80]}
 
     wall = time.time() - t0
     level = getattr(mod, "LEVEL", "exploration")
